@@ -168,6 +168,18 @@ func compileScript(
 	opts *CompilerOptions,
 	modStore *moduleStore,
 ) (bc *Bytecode, err error) {
+	// the caller does not get the constants of a script that fails to compile,
+	// a symbol table given by the caller must not keep the symbols of that
+	// script either (globals refer to their name by constant index).
+	if opts.SymbolTable != nil {
+		saved := opts.SymbolTable.clone()
+		defer func() {
+			if err != nil {
+				*opts.SymbolTable = *saved
+			}
+		}()
+	}
+
 	// an instruction whose operand exceeds the capacity of the bytecode format
 	// cannot be emitted, report it as an error.
 	defer func() {
